@@ -4,6 +4,7 @@ import LocustModel.Lemmas.C04Array
 import LocustModel.Lemmas.C04Tree
 import LocustModel.Lemmas.C04Groups
 import LocustModel.Lemmas.C04Spec
+import LocustModel.Lemmas.C04Bridge
 /-
   C04 — aggregates are computed per distinct group, once, over all rows.   PROPERTY THEOREMS.
 
@@ -47,6 +48,16 @@ example : aggCell ⟨.sum, 1⟩ [[.int 2, .int 5], [.int 2, .null]] = .ok (.int 
   simp [aggCell, colCells, ints?, aggInts, inI64, I64_MIN, I64_MAX]
 example : aggCell ⟨.count, 1⟩ [[.int 2, .int 5], [.int 2, .null]] = .ok (.int 1) := by
   simp [aggCell, colCells]
+
+/-- the specification agrees with the exact model object `xgroup` group by group (integer key, integer input) -/
+theorem C04_spec_matches_xgroup (i2f : Int → Nat) (op : Agg) (m : Nat) (base : Int) (rows : List (Nat × Int))
+    (h : ∀ p ∈ rows, p.1 ≤ m) (hfit : InFit op m rows) :
+    ∃ out, specGroupBy i2f [.key 0, .agg ⟨toFn op, 1⟩] none (rows.map (vrow base)) = .ok out ∧
+      ∀ row, row ∈ out ↔ ∃ (j : Nat) (a : Option Int), ((j : Int), a) ∈ xgroup op m rows ∧
+        row = [Val.int ((j : Int) + base), valOf a] := spec_rows_xgroup i2f op m base rows h hfit
+
+example : specGroupBy (fun _ => 0) [.key 0, .agg ⟨.sum, 1⟩] none ([(2, 5), (0, -1), (2, 9)].map (vrow 10)) =
+    .ok [[.int 10, .int (-1)], [.int 12, .int 14]] := by rfl
 
 /-! ### A. the two-way merge of partial results (merge_deduplicate → ops → merge_aggregate / merge_drop) -/
 
@@ -279,6 +290,37 @@ theorem C04_groups_partial (op : Agg) (m : Nat) (ps : List (List (Nat × Int))) 
   · simp [hi] at hp
     exact hk _ (List.getElem_mem hi) p hp
   · simp [hi] at hp
+
+/-- **Top level against the specification.**  A table with an integer grouping column (decoded key = raw key + base)
+    and an integer input column, split into any partitions `ps`, array-aggregated per partition and merged along any
+    tree that visits the partitions in order: the engine's result is `encPart X` and the rows of
+    `specGroupBy (SELECT key, AGG(input))` over the whole table are exactly the rows `[k + base, a]`, `(k, a) ∈ X` —
+    one row per distinct group, each once (`C04_spec_groups_once`), aggregates over exactly the group's rows.
+    Hypotheses: raw keys within the planned cardinality, every aggregate fits i64, no partial aggregate along the
+    tree leaves i64 or equals the sentinel. -/
+theorem C04_groups_spec (i2f : Int → Nat) (op : Agg) (m : Nat) (base : Int) (ps : List (List (Nat × Int))) (t : Tree)
+    (hk : ∀ r ∈ ps, ∀ p ∈ r, p.1 ≤ m) (hl : t.leaves = List.range ps.length)
+    (hfit : InFit op m ps.flatten) (hr : NodesInRng op (ps.map (xgroup op m)) t) :
+    ∃ out, specGroupBy i2f [.key 0, .agg ⟨toFn op, 1⟩] none (ps.flatten.map (vrow base)) = .ok out ∧
+      evalTree op (ps.map fun r => encPart (xgroup op m r)) t = .ok (encPart (xgroup op m ps.flatten)) ∧
+      ∀ row, row ∈ out ↔ ∃ (j : Nat) (a : Option Int), ((j : Int), a) ∈ xgroup op m ps.flatten ∧
+        row = [Val.int ((j : Int) + base), valOf a] := by
+  have hflat : ∀ p ∈ ps.flatten, p.1 ≤ m := by
+    intro p hp
+    simp only [List.mem_flatten] at hp
+    obtain ⟨r, hr', hp'⟩ := hp
+    exact hk r hr' p hp'
+  obtain ⟨out, ho, hrows⟩ := spec_rows_xgroup i2f op m base ps.flatten hflat hfit
+  have hg := C04_groups_partial op m ps t hk (by rw [hl]; intro i hi; simpa using hi) hr
+  have hleaves : (t.leaves.map fun i => ps.getD i []) = ps := by
+    rw [hl]
+    apply List.ext_getElem
+    · simp
+    · intro i h1 h2
+      simp at h1
+      simp [List.getD, h1]
+  rw [hleaves] at hg
+  exact ⟨out, ho, hg, hrows⟩
 
 /-- REFUTED on the same witness (rows of one group split over three partitions; exact total i64::MAX-5). -/
 theorem C04_groups_refuted : ¬ C04_groups_statement := by
